@@ -58,18 +58,32 @@
    C02_table_totals  the numbers of the commodity lines of Total (A+L), Total (E+I+E) and Delta are
        cell_amounts over all A/L accounts, over all other accounts (negated), over all accounts.
 
-   Not proved, decided by the correspondence on every run: which commodity lines the three total
-   rows list (their numbers are C02_table_totals, their place C02_table_layout, Delta = 0 is C01),
-   that a commodity line is listed only for amounts under a period column (an amount stored under
-   the zero date would list its commodity; C02_table_cells states the criterion on the report
-   tree and proves the ledger direction), and the text of the CSV (printed form of the numbers, CSV quoting), i.e.
-   balance_csv = the rendering of ledger_csv as a theorem.  ledger_csv is built from exactly the
-   expression above and is compared with the binary's CSV and the model's CSV on every run. *)
+   Which commodity lines (Proofs/BalanceTableDates.v, BalanceTableLines.v):
+   C02_close_stage_dates  CloseAccounts only appends, on a closing day, transactions of that date.
+   C02_report_keys   every amount of the report is stored under (end date of a shown period,
+       commodity): a cell under the zero date, another date or the nil commodity is zero.
+   C02_commodity_line_iff  the block of an account lists commodity c iff the ledger has a non-zero
+       PERIOD amount for (account, c) in some column of the table -- both directions.
+   C02_total_lines   Total (A+L) / Total (E+I+E) list exactly the commodities with a non-zero period
+       amount over all A/L / all other accounts in some column, ascending; Delta lists the union of
+       the two lists; the lines are block_ok with the numbers of C02_table_totals.
+
+   The CSV (Proofs/DecStringValue.v, BalanceCsv.v, BalanceCsvOrder.v), with and without -a:
+   C02_number_text   Decimal.String is a function of the value of the decimal.
+   C02_table_row_order  the account rows are LedgerSpec.all_rows of the A/L entries, then of the others.
+   C02_csv_records   the records of the CSV renderer on the table are the rows of ledger_csv.
+   C02_csv_is_ledger_csv  balance_csv cfg ds = COk text -> text = the rows of ledger_csv, fields
+       joined by commas, one record per line.
+
+   Not proved: encoding/csv quoting (not modelled: no field of a balance report needs it), and the
+   text rendering of the same table (C17).  ledger_csv is compared with the binary's CSV and the
+   model's CSV on every run. *)
 From Coq Require Import ZArith List Bool.
 From Coq Require Import QArith.
-From Knut Require Import Model.Str Model.Dec Model.Date Model.Account Model.Ledger Model.Table Model.Report Model.Cli Spec.LedgerSpec
+From Knut Require Import Model.Str Model.Dec Model.Date Model.Account Model.Ledger Model.Journal Model.Pipeline Model.Table Model.Report Model.Cli Spec.LedgerSpec
      Spec.LedgerSyntax Spec.BalanceTableSpec Proofs.DecValue Proofs.LedgerProofs Proofs.CloseProofs Proofs.LayoutProofs
-     Proofs.BalanceTableLayout Proofs.BalanceTableTree Proofs.BalanceTableCells Proofs.BalanceTableTotals.
+     Proofs.BalanceTableLayout Proofs.BalanceTableTree Proofs.BalanceTableCells Proofs.BalanceTableTotals
+     Proofs.BalanceTableDates Proofs.BalanceTableLines Proofs.DecStringValue Proofs.BalanceCsv Proofs.BalanceCsvOrder.
 Import ListNotations.
 Open Scope Z_scope.
 
@@ -327,6 +341,150 @@ Theorem C02_table_cells_render : forall rc p a neg_ oc dates,
 Proof. exact table_cells_render. Qed.
 Print Assumptions C02_table_cells_render.
 
+(* ------------------------------------------------------------------ which commodity lines *)
+
+(* The close-stage date lemma: CloseAccounts (Model/Pipeline.v close_proc, for ANY state and any
+   days) returns every day as it is or, on a closing day, with closing transactions of that date
+   appended: a dated posting that leaves the stage entered it or is dated on a closing day. *)
+Theorem C02_close_stage_dates : forall cds ds s s' ds',
+  process_days (close_proc cds) s ds = ROk (s', ds') ->
+  forall dp, In dp (days_postings ds') -> In dp (days_postings ds) \/ In (fst dp) cds.
+Proof. exact close_days_dates. Qed.
+Print Assumptions C02_close_stage_dates.
+
+(* The keys of the report: every amount is stored under (end date of a shown period, commodity).
+   A cell under the zero date (Partition.Align of a date after the last period), under a date
+   that is not a column of the table, or under the nil commodity is zero in every row.  With
+   --close this rests on C02_close_stage_dates: the closing days are the period starts, and a
+   period start is aligned to the end of its own period (an empty window closes nothing). *)
+Theorem C02_report_keys : forall cfg ds r part,
+  bc_valuation cfg = None ->
+  balance_report cfg ds = COk (r, part) ->
+  forall row od oc,
+    ~ (exists col c, od = Some col /\ oc = Some c /\ In col (end_dates part)) ->
+    (rcell row (od, oc) r == 0)%Q.
+Proof. exact report_key_dates. Qed.
+Print Assumptions C02_report_keys.
+
+(* (2) The criterion for a commodity line, both directions.  The renderer (Report.v render_node:
+   ra_sum_into drops the zero amounts, ra_commodities lists the commodities of the keys that are
+   left) lists commodity c in the block of an account iff the account has a non-zero amount under
+   SOME stored key (date, c) -- not: a non-zero cell, nor a non-zero cumulated number.  By
+   C02_report_keys the stored dates are the columns, so: iff the ledger has a non-zero PERIOD
+   amount for (account, c) in some column of the table.  (A commodity whose period amounts are
+   +5 and -5 in two columns is listed although its last cumulative cell is 0; a commodity booked
+   +5 and -5 inside one period is not listed.)  The block is then block_ok as in C02_table_cells. *)
+Theorem C02_commodity_line_iff : forall cfg ds r part,
+  bc_valuation cfg = None ->
+  balance_report cfg ds = COk (r, part) ->
+  exists dl,
+    parse_directives ds = MOk dl /\
+    (postings_syntactic dl ->
+     let rc := balance_render_cfg cfg in
+     let dates := end_dates part in
+     let es := ledger_entries cfg dl part in
+     forall row a, In (row, a) (account_rows rc r) ->
+       exists coms,
+         coms_sorted coms /\
+         (forall c, In c coms <-> exists col, In col dates /\ ~ (dvalue (period_amount es (acc_eqb row) c col) == 0)%Q) /\
+         block_ok (tw rc dates) (last row []) (name_indent row) coms
+                  (fun c => cell_amounts (bc_diff cfg) (negb (is_AL row)) es (acc_eqb row) c dates dec_nil)
+                  (acct_lines rc dates row a)).
+Proof. exact commodity_line_iff. Qed.
+Print Assumptions C02_commodity_line_iff.
+
+(* (1) The commodity lines of the three total rows.  Total (A+L) lists, ascending, exactly the
+   commodities with a non-zero period amount over all A/L accounts in some column; Total (E+I+E)
+   the same over all other accounts; Delta lists the UNION of the two lists (Amounts.Plus drops
+   nothing), also where its numbers are zero (C01).  Each row is block_ok: a single name line when
+   the list is empty, else one line per commodity with the numbers of C02_table_totals. *)
+Theorem C02_total_lines : forall cfg ds r part dl,
+  bc_valuation cfg = None ->
+  balance_report cfg ds = COk (r, part) ->
+  parse_directives ds = MOk dl ->
+  postings_syntactic dl ->
+  let rc := balance_render_cfg cfg in
+  let es := ledger_entries cfg dl part in
+  let dates := end_dates part in
+  let total_al := node_totals (total_key rc) (sorted_al rc r) [] in
+  let total_eie := node_totals (total_key rc) (sorted_eie rc r) [] in
+  exists coms_al coms_eie coms_delta,
+    (coms_sorted coms_al /\
+     (forall c, In c coms_al <-> exists col, In col dates /\ ~ (dvalue (period_amount es is_AL c col) == 0)%Q) /\
+     block_ok (tw rc dates) s_TotalAL 0 coms_al
+              (fun c => cell_amounts (bc_diff cfg) false es is_AL c dates dec_nil)
+              (line_rows rc dates 0 s_TotalAL false total_al)) /\
+    (coms_sorted coms_eie /\
+     (forall c, In c coms_eie <-> exists col, In col dates /\ ~ (dvalue (period_amount es (fun a => negb (is_AL a)) c col) == 0)%Q) /\
+     block_ok (tw rc dates) s_TotalEIE 0 coms_eie
+              (fun c => cell_amounts (bc_diff cfg) true es (fun a => negb (is_AL a)) c dates dec_nil)
+              (line_rows rc dates 0 s_TotalEIE true total_eie)) /\
+    (coms_sorted coms_delta /\
+     (forall c, In c coms_delta <-> In c coms_al \/ In c coms_eie) /\
+     block_ok (tw rc dates) s_Delta 0 coms_delta
+              (fun c => cell_amounts (bc_diff cfg) false es (fun _ => true) c dates dec_nil)
+              (line_rows rc dates 0 s_Delta false (ra_plus total_al total_eie))).
+Proof. exact total_lines_listed. Qed.
+Print Assumptions C02_total_lines.
+
+(* ------------------------------------------------------------------ (3) the CSV text *)
+
+(* Decimal.String is a function of the VALUE: whatever coefficient / exponent the report tree
+   arrived at by adding in its own order, the printed number is that of the ledger amount. *)
+Theorem C02_number_text : forall a b, (dvalue a == dvalue b)%Q -> to_string a = to_string b.
+Proof. exact to_string_value. Qed.
+Print Assumptions C02_number_text.
+
+(* The sort order: the account rows of the table (depth first over the sorted trees: top level by
+   account type, below by segment) are LedgerSpec.all_rows of the A/L entries followed by all_rows
+   of the other entries (insertion by row_ltb) -- with --sort-alphabetically, and without it as
+   well: an unvalued report has no weights (node_weight false is zero everywhere), the stable sort
+   by weight moves nothing, and the children are kept in segment order. *)
+Theorem C02_table_row_order : forall cfg ds r part dl,
+  bc_valuation cfg = None ->
+  balance_report cfg ds = COk (r, part) ->
+  parse_directives ds = MOk dl ->
+  postings_syntactic dl ->
+  let es := ledger_entries cfg dl part in
+  map fst (account_rows (balance_render_cfg cfg) r) =
+  all_rows (filter is_AL_entry es) ++ all_rows (filter (fun e => negb (is_AL_entry e)) es).
+Proof.
+  intros cfg ds r part dl Hv Hrun Hp Hsyn es. unfold account_rows. rewrite map_map, map_app.
+  change (fun x : str * account * ramounts => fst (snd (fst x), snd x)) with l_path.
+  rewrite (tree_rows_order cfg ds r part dl Hv Hrun Hp Hsyn true), (tree_rows_order cfg ds r part dl Hv Hrun Hp Hsyn false).
+  reflexivity.
+Qed.
+Print Assumptions C02_table_row_order.
+
+(* The records of the CSV renderer on the table of the balance command are the rows of ledger_csv:
+   same records in the same order, every field the same bytes (header, account names, commodities,
+   numbers; blank and separator rows are skipped as in C17_csv_rows). *)
+Theorem C02_csv_records : forall cfg ds r part dl,
+  bc_valuation cfg = None ->
+  balance_report cfg ds = COk (r, part) ->
+  parse_directives ds = MOk dl ->
+  postings_syntactic dl ->
+  exists rows, ledger_csv cfg dl = Some rows /\
+    render_csv_rows (render_report (balance_render_cfg cfg) r (end_dates part)) = rows.
+Proof. exact csv_rows_are_ledger_rows. Qed.
+Print Assumptions C02_csv_records.
+
+(* The printed text.  balance_csv = balance_report ; render_report ; render_csv (Model/Cli.v);
+   the text is the ledger's rows, fields joined by commas, one record per line.  (encoding/csv
+   quoting is outside the model, see Table.v: no field of a balance report needs it.)
+   Hypotheses: no valuation (ledger_csv is the unvalued report; it is None otherwise) and
+   postings_syntactic (accounts as the parser produces them, see C02_cells).  Every window,
+   interval, --last, --diff, --close, filter, mapping, remap, with and without -a. *)
+Theorem C02_csv_is_ledger_csv : forall cfg ds text,
+  bc_valuation cfg = None ->
+  balance_csv cfg ds = COk text ->
+  exists dl,
+    parse_directives ds = MOk dl /\
+    (postings_syntactic dl ->
+     exists rows, ledger_csv cfg dl = Some rows /\ text = concat (map (fun rec => join [44] rec ++ [10]) rows)).
+Proof. exact balance_csv_is_ledger_csv. Qed.
+Print Assumptions C02_csv_is_ledger_csv.
+
 (* non-vacuity: a journal over four months with --close.  Income of January (-1000) is carried to
    Equity:Equity at the start of February, income and expenses of February (-1000 + 200) at the
    start of March, the expenses of March (+300) at the start of April; the closed accounts are
@@ -394,5 +552,36 @@ Example C02_table_example :
     cell_amounts false true (ledger_entries cfg dl part) (acc_eqb EQ) chf dates dec_nil =
       [mkDec 0 0; mkDec 1000 0; mkDec 1800 0; mkDec 1500 0]
   | _, _ => False
+  end.
+Proof. vm_compute. repeat split. Qed.
+
+(* the same journal: the commodity lines of the total rows, and the CSV text against ledger_csv *)
+Example C02_csv_example :
+  let acc s := acc_of_name s in
+  let A := [65;115;115;101;116;115;58;66] (* Assets:B *) in
+  let I := [73;110;99;111;109;101;58;83] (* Income:S *) in
+  let E := [69;120;112;101;110;115;101;115;58;82] (* Expenses:R *) in
+  let chf := [67;72;70] in
+  let d0 := Date.of_civil 2020 1 5 in
+  let ds := [ SOpen d0 (acc A); SOpen d0 (acc I); SOpen d0 (acc E);
+              STxn (mkStxn (d0 + 1) [] [mkBooking (acc I) (acc A) (mkDec 1000 0) chf] None None);
+              STxn (mkStxn (d0 + 35) [] [mkBooking (acc A) (acc E) (mkDec 200 0) chf] None None);
+              STxn (mkStxn (d0 + 40) [] [mkBooking (acc I) (acc A) (mkDec 1000 0) chf] None None);
+              STxn (mkStxn (d0 + 70) [] [mkBooking (acc A) (acc E) (mkDec 300 0) chf] None None);
+              STxn (mkStxn (d0 + 89) [] [mkBooking (acc A) (acc E) (mkDec 50 0) chf] None None) ] in
+  let cfg := mkBalanceCfg 0 (d0 + 90) Monthly 0 false true None true [] [] [] [] [] true in
+  match balance_report cfg ds, balance_csv cfg ds, parse_directives ds with
+  | COk (r, part), COk text, MOk dl =>
+    let rc := balance_render_cfg cfg in
+    postings_syntactic_b dl = true /\
+    ra_commodities (node_totals (total_key rc) (sorted_al rc r) []) = [Some chf] /\
+    shown_commodities (filter is_AL_entry (ledger_entries cfg dl part)) (fun _ => true) (end_dates part) = [chf] /\
+    match ledger_csv cfg dl with
+    | Some rows => length rows = 12%nat /\ text = concat (map (fun rec => join [44] rec ++ [10]) rows)
+    | None => False
+    end /\
+    (* without -a: the same text *)
+    balance_csv (mkBalanceCfg 0 (d0 + 90) Monthly 0 false true None false [] [] [] [] [] true) ds = COk text
+  | _, _, _ => False
   end.
 Proof. vm_compute. repeat split. Qed.
